@@ -54,7 +54,9 @@ import (
 // Liveness is bounded by a request cap owned by the harness transport, not by the
 // clock: with >= 1 serving validator out of <= 4 and <= 3 bad answers per peer and
 // chunk, exceeding 4000 requests has probability < 1e-100; it is reported as
-// INCONCLUSIVE, never as a violation.
+// INCONCLUSIVE, never as a violation - unless the trace itself proves a steady
+// state (see livelock: 1000 consecutive requests for one chunk, every validator
+// answering "not held" from its final, constant state), which is a violation.
 
 const c35RequestCap = 4000
 
@@ -588,9 +590,10 @@ func c35Run(c c35Case, st *vstat.Stats) error {
 // cap was reached while Accept kept asking for one chunk, and in that stretch every
 // validator it can ask has answered from its terminal state (fault script
 // exhausted, real handler over constant storage says "not held"). From then on
-// every further answer is the same, so this is a steady state, not slowness. By
-// construction this is impossible for a remote chunk (some peer serves it), i.e.
-// it can only happen for a chunk the accepting node holds itself.
+// every further answer is the same, so this is a steady state, not slowness. On a
+// tree whose storage and GetChunkHandler work this cannot happen for a remote chunk
+// (by construction some peer holds and serves it), and a local chunk is never asked
+// for at all.
 func (w *c35World) livelock(events []c35Event) string {
 	if len(events) < 1000 {
 		return ""
